@@ -11,7 +11,9 @@ def p_c12(facts, rep, tier):
         "and each guard has an edge from which no effect is reachable. Decides the ordering skeleton for all paths, "
         "hence all competing-changeset histories; does not decide what a successful commit writes. H1: in the functions that hand the "
         "changeset back (`self` by value, returning Result<Option<Self>>) no field of `self` is moved out, assigned or mutably borrowed on "
-        "a path to a hand-back point unless the moved-out value is put back from the call that consumed it."
+        "a path to a hand-back point unless the moved-out value is put back from the call that consumed it. G2: before the refusal guards the database "
+        "handle (the &Nomt parameter and everything obtained through it) is only locked, read, or passed to functions that are pure by summary; no store "
+        "goes through a reference obtained from it - whatever the effect table does not list cannot happen before a refusal either."
     )
     n_fn, n_eff, n_guard = guardfx.run(facts, rep, "C12")
     rep.floor("C12 guardfx functions", n_fn, 3)
@@ -19,6 +21,10 @@ def p_c12(facts, rep, tier):
     rep.floor("C12 guardfx guards", n_guard, 5)
     import handback
 
+    import preguard
+
+    ng2 = preguard.run(facts, rep, "C12")
+    rep.floor("G2 operations on the handle before the guards", ng2, 12)
     n_hf, n_hp = handback.h1(facts, rep)
     rep.floor("H1 hand-back functions", n_hf, 2)
     rep.floor("H1 hand-back points", n_hp, 3)
@@ -28,7 +34,7 @@ def p_c12(facts, rep, tier):
         nw = witness.run(rep, ["c12"])
         rep.floor("C12 witness doctests", nw, 6)
     rep.assume(
-        "effects are exactly the calls/stores of the effect table in rules/guardfx.py (rollback log, root, marker, overlay status, store commit)",
+        "effects AFTER the last guard of a function are exactly the calls/stores of the effect table in rules/guardfx.py (rollback log, root, marker, overlay status, store commit); before the guards G2 admits only locks, reads and pure functions",
         "path feasibility is ignored (every CFG path is considered executable)",
     )
     rep.trust("rustc MIR (nightly, mir-opt-level=0) of the default-feature linux lib build", "rules/guardfx.py effect and guard tables")
@@ -48,6 +54,9 @@ def p_c11(facts, rep, tier):
         "Behavioural equivalence of overlays with commits is not decided."
     )
     n_fn, n_eff, n_guard = guardfx.run(facts, rep, "C11")
+    import preguard
+
+    preguard.run(facts, rep, "C11")
     rep.floor("C11 guardfx functions", n_fn, 2)
     rep.floor("C11 guardfx effect sites", n_eff, 6)
     rep.floor("C11 guardfx guards", n_guard, 3)
